@@ -476,6 +476,14 @@ def _callees_of(prog, f, c, conds=()):
         yield conds, _callee_name(prog, f, c)
 
 
+def _parser_paths(prog, f):
+    """Paths of the parsing function with its small private helpers read in place (the choice of decoder in a helper)."""
+    try:
+        return P.spaths(prog, f)
+    except C.AnalysisError:
+        return P.paths_of(prog, f)
+
+
 def long_integers_exact(prog, rep, rule="R14.4"):
     """The default JSON backend (orjson, when installed) reads an integer outside the 64-bit range as a *float* instead of
     refusing it, so the exact literal parser behind it is never asked.  Where typelib.py.compat may bind `json` to orjson, the
@@ -503,7 +511,7 @@ def long_integers_exact(prog, rep, rule="R14.4"):
     callees = lambda c: _callees_of(prog, f, c)  # noqa: E731
 
     exact_paths = []  # the guard lists under which the standard decoder reads the text
-    for p, r in P.returns(P.paths_of(prog, f)):
+    for p, r in P.returns(_parser_paths(prog, f)):
         if r[0] != "call" or r[2][:1] != (val,):
             continue
         for conds, name in callees(r[1]):
@@ -544,7 +552,7 @@ def r14_4(prog, rep):
         decoded_first = any(T.contains(tm, lambda x: x[0] == "call" and T.refname(x[1]) == f.qualname and x[2][:1] == (("call", ("ref", f"{C.SERDES}.decode"), (ev,), ()),)) for p in P.paths_of(prog, entry) for tm in p.all_terms())
         rep.check(decoded_first, "R14.4", entry.qualname, entry.loc, "the entry hands the decoded text to the parser", "strload does not pass decode(val) to the function that parses", detail="entry-decodes")
         dec = val
-    ps = P.paths_of(prog, f)
+    ps = _parser_paths(prog, f)
     json_first = lit_second = final = False
     sup1 = sup2 = None
     for p in ps:
@@ -596,6 +604,16 @@ def r14_4(prog, rep):
     # every call of the parser in the entry sits under a handler for RecursionError and MemoryError
     import ast as _ast
 
+    def _class_names(e):
+        """Names of the exception classes an `except` type / suppress argument denotes (a module-level tuple constant is its members)."""
+        if isinstance(e, _ast.Tuple):
+            return [n for x in e.elts for n in _class_names(x)]
+        if isinstance(e, _ast.Starred):
+            return _class_names(e.value)
+        if isinstance(e, _ast.Name) and e.id in entry.module.assigns and isinstance(entry.module.assigns[e.id], _ast.Tuple):
+            return _class_names(entry.module.assigns[e.id])
+        return [_ast.unparse(e)]
+
     unguarded = []
     for node in _ast.walk(entry.node):
         if isinstance(node, _ast.Call) and f.name in _ast.unparse(node.func) and f is not entry:
@@ -603,14 +621,14 @@ def r14_4(prog, rep):
             for tr in _ast.walk(entry.node):
                 if isinstance(tr, _ast.Try) and any(node is sub for b in tr.body for sub in _ast.walk(b)):
                     for h in tr.handlers:
-                        names = [_ast.unparse(e) for e in (h.type.elts if isinstance(h.type, _ast.Tuple) else [h.type])] if h.type is not None else ["BaseException"]
+                        names = _class_names(h.type) if h.type is not None else ["BaseException"]
                         covered |= set(names)
                 # ... or, the same thing, inside `with contextlib.suppress(RecursionError, MemoryError):`
                 if isinstance(tr, _ast.With) and any(node is sub for b in tr.body for sub in _ast.walk(b)):
                     for it in tr.items:
                         ce = it.context_expr
                         if isinstance(ce, _ast.Call) and prog.resolve_expr_name(entry.module, ce.func) == "contextlib.suppress":
-                            covered |= {_ast.unparse(a) for a in ce.args}
+                            covered |= {n for a in ce.args for n in _class_names(a)}
             if not ({"RecursionError", "MemoryError"} <= covered or covered & {"Exception", "BaseException"}):
                 unguarded.append(sorted(covered))
     if f is not entry:
